@@ -470,7 +470,10 @@ pub fn minimise(mut r: Replay, scratch: &mut Scratch, budget_s: u64) -> Replay {
             0 => c.case.plan.short_write_pct = 0,
             1 => c.case.plan.eintr_pct = 0,
             2 => c.case.plan.pipe_capacity = quiet.pipe_capacity,
-            3 => c.case.plan.read_chunk = quiet.read_chunk,
+            3 => {
+                c.case.plan.read_chunk = quiet.read_chunk;
+                c.case.plan.out_piece = 0;
+            }
             4 => c.case.plan.write_yield_every = 0,
             5 => {
                 c.case.plan.clock_jump_pct = 0;
